@@ -1,12 +1,101 @@
 import A2Verif.Model.PackText
-/-! Pascal text: the decoder does not see the zero padding that pagination inserts after a CR. -/
+import A2Verif.Lemmas.PackText
+/-! Pascal text: decoder lemmas (tokens, zero padding, pagination) and the encoder invariant. -/
 namespace A2Verif.Packing
 
-/-- every byte that follows a DLE (in decoder state `s = true`: "awaiting the indent count") is ≥ 32 -/
+/-! ### decoder state -/
+
+/-- decoder state (`await_indent`) after one byte -/
+def nextSt (s : Bool) (b : Nat) : Bool := if s then false else decide (b = 0x10)
+
+/-- decoder state after a byte string -/
+def pst : Bool → Bytes → Bool
+  | s, [] => s
+  | s, b :: r => pst (nextSt s b) r
+
+/-- every byte that follows a DLE (decoder state `true`: "awaiting the indent count") is ≥ 32 -/
 def wellCounted : Bool → Bytes → Prop
   | _, [] => True
   | true, b :: r => 32 ≤ b ∧ wellCounted false r
-  | false, b :: r => wellCounted (decide (b = 0x10) && !decide (b = 0x0d)) r
+  | false, b :: r => wellCounted (decide (b = 0x10)) r
+
+theorem pst_append : ∀ (xs ys : Bytes) (s : Bool), pst s (xs ++ ys) = pst (pst s xs) ys := by
+  intro xs
+  induction xs with
+  | nil => intro ys s; rfl
+  | cons b r ih => intro ys s; simp only [List.cons_append, pst, ih]
+
+theorem wellCounted_append : ∀ (xs ys : Bytes) (s : Bool),
+    wellCounted s (xs ++ ys) ↔ wellCounted s xs ∧ wellCounted (pst s xs) ys := by
+  intro xs
+  induction xs with
+  | nil => intro ys s; cases s <;> simp [wellCounted, pst]
+  | cons b r ih =>
+    intro ys s
+    cases s with
+    | true => simp only [List.cons_append, wellCounted, pst, nextSt, if_true, ih, and_assoc]
+    | false =>
+      simp only [List.cons_append, wellCounted, pst, nextSt, ih]
+      simp
+
+/-- decoding a concatenation -/
+theorem pasToLoop_append : ∀ (xs ys : Bytes) (s : Bool) (o : Bytes), pasToLoop s xs = some o →
+    pasToLoop s (xs ++ ys) = (pasToLoop (pst s xs) ys).map (o ++ ·) := by
+  intro xs
+  induction xs with
+  | nil =>
+    intro ys s o h
+    cases s <;> simp only [pasToLoop, Option.some.injEq] at h <;> subst h <;> simp [pst]
+  | cons b r ih =>
+    intro ys s o h
+    cases s with
+    | true =>
+      simp only [List.cons_append, pasToLoop, pst, nextSt, if_true] at h ⊢
+      by_cases hb : b < 32
+      · simp [hb] at h
+      · simp only [hb, if_false] at h ⊢
+        cases hr : pasToLoop false r with
+        | none => simp [hr] at h
+        | some o' =>
+          simp only [hr, Option.map_some, Option.some.injEq] at h
+          subst h
+          rw [ih ys false o' hr]
+          simp only [Option.map_map, List.append_assoc]
+          rfl
+    | false =>
+      simp only [List.cons_append, pasToLoop, pst, nextSt] at h ⊢
+      by_cases h1 : b = 0x0d
+      · subst h1
+        simp only [if_true] at h ⊢
+        cases hr : pasToLoop false r with
+        | none => simp [hr] at h
+        | some o' =>
+          simp only [hr, Option.map_some, Option.some.injEq] at h
+          subst h
+          have : (decide ((13:Nat) = 16)) = false := by decide
+          simp only [Bool.false_eq_true, if_false, this]
+          rw [ih ys false o' hr]
+          simp only [Option.map_map]
+          rfl
+      · by_cases h2 : b = 0x10
+        · subst h2
+          simp only [h1, if_false, if_true] at h ⊢
+          simp only [Bool.false_eq_true, if_false, decide_true]
+          exact ih ys true o h
+        · simp only [h1, h2, if_false] at h ⊢
+          simp only [Bool.false_eq_true, if_false, decide_false]
+          by_cases h3 : b < 127 ∧ b > 0
+          · simp only [h3, and_self, if_true] at h ⊢
+            cases hr : pasToLoop false r with
+            | none => simp [hr] at h
+            | some o' =>
+              simp only [hr, Option.map_some, Option.some.injEq] at h
+              subst h
+              rw [ih ys false o' hr]
+              simp only [Option.map_map]
+              rfl
+          · simp only [h3, if_false] at h ⊢
+            exact ih ys false o h
 
 theorem pasToLoop_zeros (n : Nat) (ys : Bytes) :
     pasToLoop false (List.replicate n 0 ++ ys) = pasToLoop false ys := by
@@ -17,11 +106,24 @@ theorem pasToLoop_zeros (n : Nat) (ys : Bytes) :
     simp only [pasToLoop]
     simpa using ih
 
-/-- **Pagination is invisible to the decoder.**  In an encoded text whose DLE counts are all ≥ 32
-(the encoder only writes `0x20 + indent`), inserting any number of NULs right after a CR byte does
-not change what `to_utf8` returns — this is exactly what `paginate` does to the buffer. -/
-theorem pasToLoop_insert_zeros (n : Nat) : ∀ (A B : Bytes) (s : Bool), wellCounted s (A ++ 0x0d :: B) →
-    pasToLoop s (A ++ 0x0d :: (List.replicate n 0 ++ B)) = pasToLoop s (A ++ 0x0d :: B) := by
+theorem pst_zeros (n : Nat) (ys : Bytes) : pst false (List.replicate n 0 ++ ys) = pst false ys := by
+  induction n with
+  | zero => rfl
+  | succ n ih => rw [List.replicate_succ, List.cons_append]; simpa [pst, nextSt] using ih
+
+theorem wellCounted_zeros (n : Nat) (ys : Bytes) :
+    wellCounted false (List.replicate n 0 ++ ys) ↔ wellCounted false ys := by
+  induction n with
+  | zero => rfl
+  | succ n ih => rw [List.replicate_succ, List.cons_append]; simpa [wellCounted] using ih
+
+/-- **Pagination is invisible to the decoder.**  In an encoded text whose DLE counts are all ≥ 32,
+inserting NULs right after a CR byte changes neither the decoded text, nor the decoder state at the
+end, nor the well-formedness. -/
+theorem insert_zeros (n : Nat) : ∀ (A B : Bytes) (s : Bool), wellCounted s (A ++ 0x0d :: B) →
+    pasToLoop s (A ++ 0x0d :: (List.replicate n 0 ++ B)) = pasToLoop s (A ++ 0x0d :: B) ∧
+    pst s (A ++ 0x0d :: (List.replicate n 0 ++ B)) = pst s (A ++ 0x0d :: B) ∧
+    wellCounted s (A ++ 0x0d :: (List.replicate n 0 ++ B)) := by
   intro A
   induction A with
   | nil =>
@@ -29,28 +131,92 @@ theorem pasToLoop_insert_zeros (n : Nat) : ∀ (A B : Bytes) (s : Bool), wellCou
     cases s with
     | true => simp [wellCounted] at h
     | false =>
-      simp only [List.nil_append, pasToLoop, if_true]
-      rw [pasToLoop_zeros]
+      have hd : (decide ((13:Nat) = 16)) = false := by decide
+      simp only [List.nil_append, wellCounted, hd] at h
+      refine ⟨?_, ?_, ?_⟩
+      · simp only [List.nil_append, pasToLoop, if_true]; rw [pasToLoop_zeros]
+      · simp only [List.nil_append, pst, nextSt, hd, Bool.false_eq_true, if_false]; exact pst_zeros n B
+      · simp only [List.nil_append, wellCounted, hd]; exact (wellCounted_zeros n B).mpr h
   | cons a A ih =>
     intro B s h
     cases s with
     | true =>
       simp only [List.cons_append, wellCounted] at h
-      simp only [List.cons_append, pasToLoop]
-      rw [ih B false h.2]
+      obtain ⟨i1, i2, i3⟩ := ih B false h.2
+      refine ⟨?_, ?_, ?_⟩
+      · simp only [List.cons_append, pasToLoop]; rw [i1]
+      · simp only [List.cons_append, pst, nextSt, if_true]; exact i2
+      · simp only [List.cons_append, wellCounted]; exact ⟨h.1, i3⟩
     | false =>
       simp only [List.cons_append, wellCounted] at h
-      simp only [List.cons_append, pasToLoop]
-      by_cases h1 : a = 0x0d
-      · subst h1
-        simp only [if_true]
-        rw [ih B false (by simpa using h)]
-      · by_cases h2 : a = 0x10
-        · subst h2
-          simp only [h1, if_false, if_true]
-          exact ih B true (by simpa using h)
-        · simp only [h1, h2, if_false]
-          have h' : wellCounted false (A ++ 0x0d :: B) := by simpa [h1, h2] using h
-          rw [ih B false h']
+      obtain ⟨i1, i2, i3⟩ := ih B (decide (a = 0x10)) h
+      refine ⟨?_, ?_, ?_⟩
+      · simp only [List.cons_append, pasToLoop]
+        by_cases h1 : a = 0x0d
+        · subst h1
+          have hd : (decide ((13:Nat) = 16)) = false := by decide
+          rw [hd] at i1
+          simp only [if_true]; rw [i1]
+        · by_cases h2 : a = 0x10
+          · subst h2
+            simp only [h1, if_false, if_true]
+            simpa using i1
+          · have hd : decide (a = 16) = false := by simp [h2]
+            rw [hd] at i1
+            simp only [h1, h2, if_false]; rw [i1]
+      · simp only [List.cons_append, pst, nextSt, Bool.false_eq_true, if_false]; exact i2
+      · simp only [List.cons_append, wellCounted]; exact i3
+
+/-- trailing NULs can be shortened without changing the decoded text -/
+theorem dec_zeros_le : ∀ (P : Bytes) (s : Bool) (z r : Nat) (t : Bytes), r ≤ z →
+    pasToLoop s (P ++ List.replicate z 0) = some t → pasToLoop s (P ++ List.replicate r 0) = some t := by
+  intro P
+  induction P with
+  | nil =>
+    intro s z r t hr h
+    cases s with
+    | false =>
+      have h1 := pasToLoop_zeros z []
+      have h2 := pasToLoop_zeros r []
+      simp only [List.append_nil, List.nil_append] at h1 h2 h ⊢
+      rw [h2]; rw [h1] at h; exact h
+    | true =>
+      cases z with
+      | zero =>
+        have : r = 0 := by omega
+        subst this; exact h
+      | succ z => simp [List.replicate_succ, pasToLoop] at h
+  | cons b p ih =>
+    intro s z r t hr h
+    cases s with
+    | true =>
+      simp only [List.cons_append, pasToLoop] at h ⊢
+      by_cases hb : b < 32
+      · simp [hb] at h
+      · simp only [hb, if_false] at h ⊢
+        cases hq : pasToLoop false (p ++ List.replicate z 0) with
+        | none => simp [hq] at h
+        | some t' =>
+          rw [ih false z r t' hr hq]
+          simpa [hq] using h
+    | false =>
+      simp only [List.cons_append, pasToLoop] at h ⊢
+      by_cases h1 : b = 0x0d
+      · simp only [h1, if_true] at h ⊢
+        cases hq : pasToLoop false (p ++ List.replicate z 0) with
+        | none => simp [hq] at h
+        | some t' => rw [ih false z r t' hr hq]; simpa [hq] using h
+      · by_cases h2 : b = 0x10
+        · simp only [h1, h2, if_false, if_true] at h ⊢
+          simp only [show ¬ ((16:Nat) = 13) by decide, if_false] at h ⊢
+          exact ih true z r t hr h
+        · simp only [h1, h2, if_false] at h ⊢
+          by_cases h3 : b < 127 ∧ b > 0
+          · simp only [h3, and_self, if_true] at h ⊢
+            cases hq : pasToLoop false (p ++ List.replicate z 0) with
+            | none => simp [hq] at h
+            | some t' => rw [ih false z r t' hr hq]; simpa [hq] using h
+          · simp only [h3, if_false] at h ⊢
+            exact ih false z r t hr h
 
 end A2Verif.Packing
